@@ -1,5 +1,5 @@
 SPECIFICATION Spec
-CONSTANTS L = 3  Variant = "stable"  NObj = 6  Family = "ties"
+CONSTANTS L = 3  IsoTest = "full"  Variant = "stable"  NObj = 7  Family = "tiesq"
 INVARIANT TypeOK
 INVARIANT PainterRule
 INVARIANT PrefixRule
